@@ -11,6 +11,7 @@ For a matched word `w` and a literal `l` of a sequence tagged `p` (`prefix`):
 
 `Seq.Inv p s w` : the sequence is infinite, or some literal of it is `ok` for `w`.
 -/
+set_option linter.unusedSimpArgs false
 namespace RgVerif.Rx
 open RgVerif
 
@@ -359,5 +360,323 @@ theorem inv_exUnion_right {t1 t2 : TSeq} {w : Bytes} (h : t2.Inv w) : (exUnion t
     · exact Seq.inv_and' (Seq.inv_dedup (Seq.inv_keepFirstBytes 4 h))
   · unfold TSeq.Inv
     exact Seq.inv_union_right (Seq.inv_and' h)
+
+/-! ### classes -/
+
+theorem mem_classElems {rs : Ranges} {c : Nat} (h : inCls rs c = true) : c ∈ classElems rs := by
+  obtain ⟨r, hr, h1, h2⟩ := (inCls_iff rs c).1 h
+  unfold classElems
+  rw [List.mem_flatMap]
+  refine ⟨r, hr, ?_⟩
+  rw [List.mem_range'_1]
+  omega
+
+theorem foldl_push_spec (f : Nat → Lit) (xs : List Nat) (L0 : List Lit) :
+    ∃ L, xs.foldl (fun s c => Seq.push s (f c)) (some L0) = some L ∧ (∀ l ∈ L0, l ∈ L) ∧ (∀ c ∈ xs, f c ∈ L) := by
+  induction xs generalizing L0 with
+  | nil => exact ⟨L0, rfl, fun _ h => h, fun _ h => by cases h⟩
+  | cons x xs ih =>
+    simp only [List.foldl_cons]
+    have hstep : ∃ L1, Seq.push (some L0) (f x) = some L1 ∧ (∀ l ∈ L0, l ∈ L1) ∧ f x ∈ L1 := by
+      simp only [Seq.push, Option.map]
+      split
+      · rename_i hlast
+        refine ⟨L0, rfl, fun _ h => h, ?_⟩
+        exact List.mem_of_getLast? (by simpa using hlast)
+      · exact ⟨L0 ++ [f x], rfl, fun l h => List.mem_append_left _ h, by simp⟩
+    obtain ⟨L1, h1, h2, h3⟩ := hstep
+    rw [h1]
+    obtain ⟨L, hL, hsub, hall⟩ := ih L1
+    refine ⟨L, hL, fun l h => hsub l (h2 l h), ?_⟩
+    intro c hc
+    rcases List.mem_cons.1 hc with rfl | hc
+    · exact hsub _ h3
+    · exact hall c hc
+
+theorem inv_extractClassBytes {lk : LookFn} {rs : Ranges} {hay : Bytes} {s e : Nat}
+    (hm : Matches lk (.classB rs) hay s e) : (extractClassBytes rs).Inv (slice hay s e) := by
+  cases hm with
+  | classB hget hin =>
+    rename_i b
+    unfold extractClassBytes
+    split
+    · trivial
+    · apply TSeq.inv_enforce
+      obtain ⟨L, hL, _, hall⟩ := foldl_push_spec (fun b => ⟨[b], true⟩) (classElems rs) []
+      unfold TSeq.Inv
+      simp only [Seq.empty]
+      rw [hL]
+      refine ⟨⟨[b], true⟩, hall b (mem_classElems hin), ?_⟩
+      simp only [Lit.ok]
+      -- the slice is the single byte
+      apply List.ext_getElem?
+      intro j
+      rw [slice_getElem?]
+      cases j with
+      | zero => simp [hget]
+      | succ j => simp
+
+theorem inv_extractClassUnicode {lk : LookFn} {rs : Ranges} {hay : Bytes} {s e : Nat}
+    (hm : Matches lk (.classU rs) hay s e) : (extractClassUnicode rs).Inv (slice hay s e) := by
+  cases hm with
+  | classU hin hsc hl hsl =>
+    rename_i c
+    unfold extractClassUnicode
+    split
+    · trivial
+    · apply TSeq.inv_enforce
+      obtain ⟨L, hL, _, hall⟩ := foldl_push_spec (fun c => ⟨utf8Enc c, true⟩) ((classElems rs).filter isScalar) []
+      unfold TSeq.Inv
+      simp only [Seq.empty]
+      rw [hL]
+      refine ⟨⟨utf8Enc c, true⟩, hall c (List.mem_filter.2 ⟨mem_classElems hin, hsc⟩), ?_⟩
+      simp only [Lit.ok]
+      exact hsl
+
+/-! ### repetitions -/
+
+theorem inv_singleton_empty (p : Bool) : (TSeq.mk (Seq.singleton ⟨[], true⟩) p).Inv [] := by
+  refine ⟨⟨[], true⟩, by simp, ?_⟩
+  cases p <;> simp [Lit.ok]
+
+/-- all `n` iterations are crossed (or the loop stopped on an all-inexact sequence) -/
+theorem inv_crossLoop_full {lk : LookFn} {sub : Hir} {T : TSeq} {hay : Bytes}
+    (hsub : ∀ s e, Matches lk sub hay s e → T.Inv (slice hay s e)) :
+    ∀ (n : Nat) (seq : TSeq) (s0 s e : Nat), s0 ≤ s → MatchesRep lk sub hay n s e →
+      seq.Inv (slice hay s0 s) → (crossLoop T n seq).Inv (slice hay s0 e) := by
+  intro n
+  induction n with
+  | zero =>
+    intro seq s0 s e _ hr hseq
+    cases hr
+    exact hseq
+  | succ n ih =>
+    intro seq s0 s e hs0 hr hseq
+    cases hr with
+    | succ h1 h2 =>
+      rename_i m
+      have a := Matches.span h1
+      have b := MatchesRep.span h2
+      simp only [crossLoop]
+      split
+      · rename_i hi
+        rw [slice_append hay s0 s e hs0 (by omega)]
+        exact TSeq.inv_ext hi hseq
+      · apply ih (exCross seq T) s0 m e (by omega) h2
+        rw [slice_append hay s0 s m hs0 a.1]
+        exact inv_exCross hseq (hsub s m h1)
+
+/-- only the first `k ≤ n` iterations are crossed; the result is then made inexact -/
+theorem inv_crossLoop_part {lk : LookFn} {sub : Hir} {T : TSeq} {hay : Bytes}
+    (hsub : ∀ s e, Matches lk sub hay s e → T.Inv (slice hay s e)) :
+    ∀ (k n : Nat) (seq : TSeq) (s0 s e : Nat), k ≤ n → s0 ≤ s → MatchesRep lk sub hay n s e →
+      seq.Inv (slice hay s0 s) → (crossLoop T k seq).makeInexact.Inv (slice hay s0 e) := by
+  intro k
+  induction k with
+  | zero =>
+    intro n seq s0 s e _ hs0 hr hseq
+    have b := MatchesRep.span hr
+    simp only [crossLoop]
+    rw [slice_append hay s0 s e hs0 b.1]
+    exact TSeq.inv_ext (Seq.makeInexact_isInexact _) (TSeq.inv_makeInexact hseq)
+  | succ k ih =>
+    intro n seq s0 s e hk hs0 hr hseq
+    cases hr with
+    | zero _ => omega
+    | succ h1 h2 =>
+      rename_i n' m
+      have a := Matches.span h1
+      have b := MatchesRep.span h2
+      simp only [crossLoop]
+      split
+      · rw [slice_append hay s0 s e hs0 (by omega)]
+        exact TSeq.inv_ext (Seq.makeInexact_isInexact _) (TSeq.inv_makeInexact hseq)
+      · apply ih n' (exCross seq T) s0 m e (by omega) (by omega) h2
+        rw [slice_append hay s0 s m hs0 a.1]
+        exact inv_exCross hseq (hsub s m h1)
+
+/-- at least one iteration: the (inexact) literals of the first iteration -/
+theorem inv_rep_first {lk : LookFn} {sub : Hir} {T : TSeq} {hay : Bytes}
+    (hsub : ∀ s e, Matches lk sub hay s e → T.Inv (slice hay s e))
+    {n s e : Nat} (hn : 1 ≤ n) (hr : MatchesRep lk sub hay n s e) : T.makeInexact.Inv (slice hay s e) := by
+  cases hr with
+  | zero _ => omega
+  | succ h1 h2 =>
+    rename_i n' m
+    have a := Matches.span h1
+    have b := MatchesRep.span h2
+    rw [slice_append hay s m e a.1 b.1]
+    exact TSeq.inv_ext (Seq.makeInexact_isInexact _) (TSeq.inv_makeInexact (hsub s m h1))
+
+theorem inv_extractRepetition {lk : LookFn} {sub : Hir} {T : TSeq} {hay : Bytes}
+    (hsub : ∀ s e, Matches lk sub hay s e → T.Inv (slice hay s e))
+    {min : Nat} {max : Option Nat} {greedy : Bool} {s e : Nat}
+    (hm : Matches lk (.rep min max greedy sub) hay s e) :
+    (extractRepetition min max greedy T).Inv (slice hay s e) := by
+  cases hm with
+  | rep n hmin hmax hr =>
+    unfold extractRepetition
+    split
+    · -- min = 0
+      have key : (if (max != some 1) = true then T.makeInexact else T).Inv (slice hay s e) ∨
+          (TSeq.singleton ⟨[], true⟩).Inv (slice hay s e) := by
+        cases n with
+        | zero =>
+          right
+          cases hr
+          rw [slice_self]
+          exact inv_singleton_empty true
+        | succ n' =>
+          left
+          split
+          · exact inv_rep_first hsub (by omega) hr
+          · rename_i hmax1
+            have hmx : max = some 1 := by simpa using hmax1
+            have := hmax 1 hmx
+            have hn' : n' = 0 := by omega
+            subst hn'
+            cases hr with
+            | succ h1 h2 =>
+              cases h2
+              exact hsub _ _ h1
+      simp only
+      split
+      · rcases key with k | k
+        · exact inv_exUnion_left k
+        · exact inv_exUnion_right k
+      · rcases key with k | k
+        · exact inv_exUnion_right k
+        · exact inv_exUnion_left k
+    · rename_i hmin0
+      have hmin0' : min ≠ 0 := by simpa using hmin0
+      split
+      · rename_i mx
+        have hnmx := hmax mx rfl
+        split
+        · rename_i heq
+          have heq' : min = mx := by simpa using heq
+          have hn : n = min := by omega
+          simp only
+          split
+          · exact inv_crossLoop_part hsub _ n _ s s e (Nat.le_trans (Nat.min_le_left _ _) (by omega)) (Nat.le_refl _) hr
+              (by rw [slice_self]; exact inv_singleton_empty true)
+          · rename_i hle
+            have hk : Nat.min min limitRepeat = n := by rw [hn]; exact Nat.min_eq_left (by omega)
+            rw [hk]
+            exact inv_crossLoop_full hsub n _ s s e (Nat.le_refl _) hr
+              (by rw [slice_self]; exact inv_singleton_empty true)
+        · split
+          · exact inv_crossLoop_part hsub _ n _ s s e (Nat.le_trans (Nat.min_le_left _ _) (by omega)) (Nat.le_refl _) hr
+              (by rw [slice_self]; exact inv_singleton_empty true)
+          · exact inv_rep_first hsub (by omega) hr
+      · exact inv_rep_first hsub (by omega) hr
+
+/-! ### the induction over the HIR -/
+
+def PrevInv (prev : Option TSeq) (w : Bytes) : Prop :=
+  match prev with
+  | none => True
+  | some p => p.InvI w
+
+theorem PrevInv.ext {prev : Option TSeq} {w w2 : Bytes} (h : PrevInv prev w) : PrevInv prev (w ++ w2) := by
+  cases prev with
+  | none => trivial
+  | some p => exact TSeq.invI_ext h
+
+theorem inv_of_not_finite {t : TSeq} {w : Bytes} (h : (!t.seq.isFinite) = true) : t.Inv w := by
+  unfold TSeq.Inv
+  cases hs : t.seq with
+  | none => trivial
+  | some L => simp [Seq.isFinite, hs] at h
+
+theorem inv_restart (w : Bytes) : (TSeq.mk (Seq.singleton ⟨[], true⟩) false).Inv w :=
+  ⟨⟨[], true⟩, by simp [Seq.singleton], by simp [Lit.ok]⟩
+
+/-- the union loop never loses what the sequence already covers -/
+theorem extractAlt_keep : ∀ (xs : HirList) (seq : TSeq) (w : Bytes), seq.Inv w → (extractAlt xs seq).Inv w
+  | .nil, seq, w, h => by simpa [extractAlt] using h
+  | .cons h t, seq, w, hs => by
+      simp only [extractAlt]
+      split
+      · exact hs
+      · exact extractAlt_keep t _ w (inv_exUnion_left hs)
+
+mutual
+/-- **`extract_inv`**: for every HIR and every match of it, the extracted sequence satisfies the
+invariant for the matched word. -/
+theorem extract_inv {lk : LookFn} : ∀ (h : Hir) {hay : Bytes} {s e : Nat},
+    Matches lk h hay s e → (extract h).Inv (slice hay s e)
+  | .empty, _, _, _, .empty _ => by
+      rw [slice_self]; exact inv_singleton_empty true
+  | .look _, _, _, _, .look _ _ => by
+      rw [slice_self]; exact inv_singleton_empty true
+  | .lit bs, _, _, _, .lit _ hsl => by
+      simp only [extract]
+      apply TSeq.inv_enforce
+      exact ⟨⟨bs, true⟩, by simp [TSeq.singleton, Seq.singleton], by simp [Lit.ok, TSeq.singleton, hsl]⟩
+  | .classU rs, _, _, _, hm => by
+      simp only [extract]; exact inv_extractClassUnicode hm
+  | .classB rs, _, _, _, hm => by
+      simp only [extract]; exact inv_extractClassBytes hm
+  | .rep min max greedy sub, hay, _, _, hm => by
+      simp only [extract]
+      exact inv_extractRepetition (fun s e h => extract_inv sub h) hm
+  | .cap _ sub, _, _, _, .cap hm => by
+      simp only [extract]; exact extract_inv sub hm
+  | .concat xs, hay, s, e, .concat hm => by
+      simp only [extract]
+      exact extractConcat_inv xs _ none (Nat.le_refl s) hm (by rw [slice_self]; exact inv_singleton_empty true) trivial
+  | .alt xs, _, _, _, .alt hm => by
+      simp only [extract]; exact extractAlt_inv xs _ hm
+theorem extractConcat_inv {lk : LookFn} : ∀ (xs : HirList) (seq : TSeq) (prev : Option TSeq)
+    {hay : Bytes} {s0 s e : Nat}, s0 ≤ s → MatchesSeq lk xs hay s e →
+    seq.Inv (slice hay s0 s) → PrevInv prev (slice hay s0 s) → (extractConcat xs seq prev).Inv (slice hay s0 e)
+  | .nil, seq, prev, _, _, _, _, _, .nil _, hseq, hprev => by
+      simp only [extractConcat]
+      split
+      · rename_i p
+        exact TSeq.inv_choose (TSeq.inv_makeInexact hprev.2) (TSeq.inv_makeInexact hseq)
+      · exact hseq
+  | .cons h t, seq, prev, hay, s0, s, e, hs0, .cons (m := m) h1 h2, hseq, hprev => by
+      have a := Matches.span h1
+      have b := MatchesSeq.span h2
+      simp only [extractConcat]
+      split
+      · rename_i hi
+        have hfull : seq.Inv (slice hay s0 e) := by
+          rw [slice_append hay s0 s e hs0 (by omega)]
+          exact TSeq.inv_ext hi hseq
+        split
+        · exact hfull
+        · split
+          · exact hfull
+          · apply extractConcat_inv t _ _ (by omega : s0 ≤ m) h2
+            · rw [slice_append hay s0 s m hs0 a.1]
+              exact inv_exCross (inv_restart _) (extract_inv h h1)
+            · rw [slice_append hay s0 s m hs0 a.1]
+              apply TSeq.invI_ext
+              cases prev with
+              | none => exact ⟨hi, hseq⟩
+              | some p =>
+                exact ⟨TSeq.choose_isInexact _ _,
+                  TSeq.inv_choose (TSeq.inv_makeInexact hprev.2) (TSeq.inv_makeInexact hseq)⟩
+      · apply extractConcat_inv t _ _ (by omega : s0 ≤ m) h2
+        · rw [slice_append hay s0 s m hs0 a.1]
+          exact inv_exCross hseq (extract_inv h h1)
+        · rw [slice_append hay s0 s m hs0 a.1]
+          exact hprev.ext
+theorem extractAlt_inv {lk : LookFn} : ∀ (xs : HirList) (seq : TSeq) {hay : Bytes} {s e : Nat},
+    MatchesAny lk xs hay s e → (extractAlt xs seq).Inv (slice hay s e)
+  | .cons h t, seq, _, _, _, .head h1 => by
+      simp only [extractAlt]
+      split
+      · rename_i hf; exact inv_of_not_finite hf
+      · exact extractAlt_keep t _ _ (inv_exUnion_right (extract_inv h h1))
+  | .cons h t, seq, _, _, _, .tail h1 => by
+      simp only [extractAlt]
+      split
+      · rename_i hf; exact inv_of_not_finite hf
+      · exact extractAlt_inv t _ h1
+end
 
 end RgVerif.Rx
